@@ -13,6 +13,18 @@ ASSUMPTIONS = ["copy_from_process replaced by a scripted contract stub (arbitrar
                "no mapping covers page 0 or the last page (IP window arithmetic ip-128/ip+128; Linux mmap_min_addr and canonical addresses)"]
 def D(n, d, tier="quick", **kw): return H("c02_dso_debug::" + n, desc=d, tier=tier, timeout=1800, est_gb=8, **kw)
 HARNESSES = [
+    H("c08_modules::c02_so_version_name_nonascii_separator", desc="SoVersion::parse (module version from the mapped file name) returns, no panic: concrete name", timeout=900, est_gb=4, expect_unsat_covers=("a version was derived","no version")),
+    H("c08_modules::c02_so_version_name_fourth_alnum", desc="SoVersion::parse (module version from the mapped file name) returns, no panic: concrete name", timeout=900, est_gb=4, expect_unsat_covers=("a version was derived","no version")),
+    H("c08_modules::c02_so_version_name_third_alnum", desc="SoVersion::parse (module version from the mapped file name) returns, no panic: concrete name", timeout=900, est_gb=4, expect_unsat_covers=("a version was derived","no version")),
+    H("c08_modules::c02_so_version_total_space_in_name", desc="SoVersion::parse (module version from the mapped file name) returns, no panic: concrete name", timeout=900, est_gb=4, expect_unsat_covers=("a version was derived","no version")),
+    H("c08_modules::c02_so_version_total_five_components", desc="SoVersion::parse (module version from the mapped file name) returns, no panic: concrete name", timeout=900, est_gb=4, expect_unsat_covers=("a version was derived","no version")),
+    H("c08_modules::c02_so_version_total_nonascii_everywhere", desc="SoVersion::parse returns, no panic: concrete name (did not finish in 900 s)", timeout=3000, est_gb=12, mem_gb=24, tier="thorough", expect_unsat_covers=("a version was derived","no version")),
+    H("c08_modules::c02_so_version_total_fourth_nonascii", desc="SoVersion::parse (module version from the mapped file name) returns, no panic: concrete name", timeout=900, est_gb=4, expect_unsat_covers=("a version was derived","no version")),
+    H("c08_modules::c02_so_version_total_no_version", desc="SoVersion::parse (module version from the mapped file name) returns, no panic: concrete name", timeout=900, est_gb=4, expect_unsat_covers=("a version was derived","no version")),
+    H("c08_modules::c02_so_version_total_trailing_dot", desc="SoVersion::parse returns, no panic: concrete name (did not finish in 900 s)", timeout=3000, est_gb=12, mem_gb=24, tier="thorough", expect_unsat_covers=("a version was derived","no version")),
+    H("c08_modules::c02_so_version_total_huge_number", desc="SoVersion::parse (module version from the mapped file name) returns, no panic: concrete name", timeout=900, est_gb=4, expect_unsat_covers=("a version was derived","no version")),
+    H("c08_modules::c02_so_version_symbolic_digits", desc="SoVersion::parse, every digit pair around a 2-byte character", timeout=1500, est_gb=8, mem_gb=20, tier="thorough"),
+    H("c14_module_reader::c14_soname_offset_outside_table", desc="SONAME via program headers: DT_SONAME >= DT_STRSZ is an error, never a panic", timeout=1200, est_gb=6),
     D("c02_dso_phnum_arbitrary", "AT_PHNUM and AT_PHDR arbitrary"),
     D("c02_dso_phdr_arbitrary", "2 arbitrary program headers"),
     D("c02_dso_phdr_short_read", "short read of the program headers", expect_unsat_covers=("the phase under test ran to its end (cut reached)",)),
